@@ -230,4 +230,4 @@ static Val run_stream(const Val &c)
                       Val::Bool(i >= 0 && got.mid(i + 4) == expected)});        // the body arrived in the order of the write calls
 }
 
-void reg_sock() { registerFamily("stream", run_stream); registerFamily("sock", run_sock); registerFamily("sockl", run_sockl); registerFamily("socknet", run_socknet); registerFamily("socklate", run_socklate); }
+void reg_sock() { registerFamily("stream", run_stream); registerFamily("sock", run_sock); registerFamily("sockl", run_sockl); registerFamily("socknet", run_socknet); registerFamily("socklate", run_socklate); registerFamily("sockbig", run_sock); }
